@@ -520,6 +520,23 @@ theorem cache_commit_reversed_order_cex :
   have := h "a" (some "01") (by decide)
   exact absurd this (by decide)
 
+/-- **Finding F94: inside the commit window the writes of a committed transaction are NOT visible together** (the clause
+"the writes of a committed transaction become visible together" read for plain readers that go through the read cache
+while `Commit` is still running). `a` is in the parent cache (old value `01`), `b` is not; the transaction changes both;
+the underlying commit lands; a plain reader then reads `b` — a miss, answered by the backend with the NEW value — and
+then `a` — a hit, answered by the parent cache with the OLD value. Once `Commit` has returned both are new
+(`cache_commit_window_coherent_atomic_reader`). -/
+theorem cache_window_half_visible_cex :
+    (fun (s : CSys) =>
+      ∃ w, Win.start s 0 = some w ∧
+        ((w.tick).reader "b").2 = .val (some "02") ∧
+        ((((w.tick).reader "b").1).reader "a").2 = .val (some "01") ∧
+        ((((w.tick).reader "b").1.run [.tick, .tick, .tick]).reader "a").2 = .val (some "02"))
+    ((CSys.init [("a", "01"), ("b", "01")]).run
+      [.plain (.get "a"), .begin 0 true, .op 0 (.put "a" "02"), .op 0 (.put "b" "02")]) := by
+  refine ⟨_, rfl, ?_⟩
+  decide
+
 /-- **The commit window at lock granularity.** Readers are no longer atomic: `cache.Get(k)` is acquire the read
 lock of `k`'s stripe · LRU lookup · (miss) backend read · `lru.Add` · release, and the commit's eviction of each
 modified key is acquire the stripe's WRITE lock (blocked while a reader holds it) · `lru.Remove` · release, after
